@@ -407,6 +407,8 @@ pub struct CallPlan<'d> {
     pub calls: usize,
     max_main: usize,
     limit: usize,
+    /// transient ends of file (see source::Core::teof) not yet met
+    stops: Vec<usize>,
 }
 
 #[derive(PartialEq, Debug)]
@@ -422,7 +424,12 @@ impl<'d> CallPlan<'d> {
     /// `limit`: the reader's configured `message_max_len` (0 = none)
     pub fn new_lim(data: &'d [u8], storage: bool, limit: usize) -> Self {
         let (p, _) = crate::model::cut_all_lim(data, storage, limit);
-        CallPlan { data, storage, pos: 0, extra_left: 2, in_extra: false, terminal_calls: 0, calls: 0, max_main: p.len() + 1, limit }
+        CallPlan { data, storage, pos: 0, extra_left: 2, in_extra: false, terminal_calls: 0, calls: 0, max_main: p.len() + 1, limit, stops: vec![] }
+    }
+    pub fn with_stops(mut self, stops: &[usize]) -> Self {
+        self.stops = stops.to_vec();
+        self.max_main += stops.len();
+        self
     }
     /// `failed`: the source has returned a hard error
     pub fn after(&mut self, res: &crate::model::Res, failed: bool) -> Next {
@@ -437,6 +444,13 @@ impl<'d> CallPlan<'d> {
         if self.in_extra {
             self.extra_left -= 1;
             return if self.extra_left == 0 { Next::Stop } else { Next::Again };
+        }
+        // a reader that answers "no more message" at a transient end of file is simply called again
+        if *res == Res::None {
+            if let Some(i) = self.stops.iter().position(|s| *s == self.pos) {
+                self.stops.remove(i);
+                return if self.calls >= self.max_main + 4 { Next::Stop } else { Next::Again };
+            }
         }
         let terminal = match cut_at_lim(self.data, self.pos, self.storage, self.limit) {
             Cut::Piece(n) => {
